@@ -49,7 +49,8 @@ struct engine {
   double solver_s = 0;
   int shard_k = 0, shard_n = 1, shard_depth = 0;
   unsigned long shard_bits = 0;
-  bool check_hash = true;
+  bool check_hash = false;   // structural hashes of z3 terms are not stable across re-executions (argument order follows AST ids)
+  bool prefix_checked = false;
   size_t max_depth = 20000;
   engine() : s(c) {
     z3::params p(c);
@@ -70,6 +71,15 @@ struct engine {
     trace.clear();
     forks_on_path = 0;
     shard_bits = 0;
+    prefix_checked = d.empty();
+  }
+  // determinism guard: when the recorded prefix has been replayed, its path condition must be
+  // satisfiable (it was when the prefix was recorded); otherwise the re-execution diverged
+  void end_of_prefix() {
+    if (prefix_checked) return;
+    prefix_checked = true;
+    z3::check_result r = timed_check();
+    if (r != z3::sat) throw no_verdict{"nondeterministic-replay(prefix infeasible)"};
   }
   z3::check_result timed_check() {
     struct timespec a, b;
@@ -119,6 +129,7 @@ struct engine {
       out = d.b;
       if (d.fork) note_fork(out);
     } else {
+      end_of_prefix();
       bool t = feasible(cond), f = feasible(!cond);
       dec d{0, true, 0, false, {}, false, cond_hash(cond)};
       if (t && f) {
@@ -161,6 +172,7 @@ struct engine {
         excl = d.excl;
     }
     if (pick) {
+      if (pos >= decisions.size()) end_of_prefix();
       for (int64_t x : excl) s.add(e != c.int_val(x));
       z3::check_result r = timed_check();
       if (r == z3::unknown) throw no_verdict{"solver-unknown-in-concretise"};
